@@ -1,3 +1,109 @@
-From XF Require Import Arith Sparse.
-Theorem placeholder : True. Proof. exact I. Qed.
-Print Assumptions placeholder.
+(* Properties_C09.v — theorem statements for property C09 (linear solvers), each closed by
+   [exact] of a lemma proved in SparseProofs.v / CSparseProofs.v.  Nothing else lives here. *)
+From Coq Require Import ZArith List Bool Arith Lia Reals Lra.
+From XF Require Import Arith Sparse SparseProofs.
+Import ListNotations.
+Local Open Scope R_scope.
+
+(* -- matrix entry set/get/add is exact and symmetric regardless of insertion order ------ *)
+(* generic in the arithmetic: holds for the binary64 reading as well as for the reals *)
+Theorem C09_get_after_put : forall (F : Type) (A : Arith F) (M : matrixT F) (v : F) (p q : nat),
+  mat_ok M -> (p < length M)%nat -> (q < length M)%nat ->
+  mget A (mput M v p q) p q = v /\ mget A (mput M v p q) q p = v.
+Proof. intros. split; [|rewrite mget_sym]; apply mget_mput_same; auto. Qed.
+Print Assumptions C09_get_after_put.
+
+Theorem C09_put_touches_nothing_else : forall (F : Type) (A : Arith F) (M : matrixT F) (v : F) (p q p' q' : nat),
+  mat_ok M -> (p < length M)%nat -> (q < length M)%nat ->
+  ~ ((p' = p /\ q' = q) \/ (p' = q /\ q' = p)) ->
+  mget A (mput M v p q) p' q' = mget A M p' q'.
+Proof. exact (fun F A => mget_mput_other A). Qed.
+Print Assumptions C09_put_touches_nothing_else.
+
+Theorem C09_get_symmetric : forall (F : Type) (A : Arith F) (M : matrixT F) (p q : nat),
+  mget A M p q = mget A M q p.
+Proof. exact (fun F A => mget_sym A). Qed.
+Print Assumptions C09_get_symmetric.
+
+(* refinement: any history of Put from Create is the abstract symmetric map with last-writer-wins *)
+Theorem C09_puts_refine_abstract_map : forall (F : Type) (A : Arith F) (n : nat) (h : list (F * nat * nat)),
+  in_range n h -> forall p q,
+  mget A (puts (mcreate A n) h) p q =
+  match last_write h p q with Some w => w | None => mget A (mcreate A n) p q end.
+Proof.
+  intros F A n h Hr p q.
+  pose proof (abs_puts A h (mcreate A n) (mcreate_ok A n)) as G. unfold abs in G.
+  rewrite G by (rewrite mcreate_length; auto). apply aputs_last_write.
+Qed.
+Print Assumptions C09_puts_refine_abstract_map.
+
+Theorem C09_insertion_order_independent : forall (F : Type) (A : Arith F) (n : nat) (h1 h2 : list (F * nat * nat)),
+  in_range n h1 -> in_range n h2 ->
+  (forall p q, last_write h1 p q = last_write h2 p q) ->
+  forall p q, mget A (puts (mcreate A n) h1) p q = mget A (puts (mcreate A n) h2) p q.
+Proof. exact (fun F A => puts_order_independent A). Qed.
+Print Assumptions C09_insertion_order_independent.
+
+(* -- MultA is the product with the abstract symmetric matrix (real reading) -------------- *)
+Theorem C09_multA_is_matrix_vector_product : forall (M : matrixT R) (X : vecT R),
+  mat_wf M ->
+  length (multA RA M X) = length M /\
+  forall k, (k < length M)%nat ->
+    vget RA (multA RA M X) k = rsum (fun j => mget RA M k j * vget RA X j) (length M).
+Proof. exact multA_spec. Qed.
+Print Assumptions C09_multA_is_matrix_vector_product.
+
+(* -- PCG: on a reported convergence the exit test was passed by the TRUE residual b - A V - *)
+Theorem C09_pcg_exit_on_true_residual : forall (L : lin (F:=R)) (flag : bool) (fuel : nat) (V : vecT R) (it : nat),
+  mat_wf (lM L) -> length (lb L) = length (lM L) -> length (lV L) = length (lM L) ->
+  ln L = length (lM L) ->
+  pcg RA fuel L flag = (V, it, 1%nat) ->
+  let res_o := dot RA (multPC RA (lM L) (llam L) (lb L)) (lb L) in
+  (res_o = 0 /\ V = lV L) \/
+  (res_o <> 0 /\ exists Rv,
+     (length Rv = length (lM L) /\
+      forall k, (k < length (lM L))%nat ->
+        vget RA Rv k = vget RA (lb L) k - rsum (fun j => mget RA (lM L) k j * vget RA V j) (length (lM L))) /\
+     ~ (lprec L < sqrt (dot RA (multPC RA (lM L) (llam L) Rv) Rv / res_o))).
+Proof. exact pcg_converged. Qed.
+Print Assumptions C09_pcg_exit_on_true_residual.
+
+(* -- SetValue: exactly the solutions of the constrained system --------------------------- *)
+Theorem C09_setvalue_constrained_system : forall (L : lin (F:=R)) (i : nat) (x : R) (V : vecT R),
+  mat_wf (lM L) -> ln L = length (lM L) -> length (lb L) = length (lM L) ->
+  (i < length (lM L))%nat -> sv_covered L i -> mget RA (lM L) i i <> 0 ->
+  let L' := setvalue RA L i x in
+  (forall k, (k < length (lM L))%nat -> Ax (lM L') V k = vget RA (lb L') k) <->
+  (vget RA V i = x /\
+   forall k, (k < length (lM L))%nat -> k <> i -> Ax (lM L) V k = vget RA (lb L) k).
+Proof. exact setvalue_equiv. Qed.
+Print Assumptions C09_setvalue_constrained_system.
+
+(* -- Periodicity / AntiPeriodicity: exactly the solutions of the tied (reduced) system ---- *)
+Theorem C09_tie_constrained_system : forall (anti : bool) (L : lin (F:=R)) (i j : nat) (V : vecT R),
+  mat_wf (lM L) -> ln L = length (lM L) -> length (lb L) = length (lM L) ->
+  (i < j)%nat -> (j < length (lM L))%nat ->
+  let s : R := if anti then -1 else 1 in
+  (mget RA (lM L) i i + mget RA (lM L) j j) / 2 - s * mget RA (lM L) i j <> 0 ->
+  let L' := if anti then antiperiodicity RA L i j else periodicity RA L i j in
+  length (lM L') = length (lM L) /\ mat_wf (lM L') /\
+  ((forall k, (k < length (lM L))%nat -> Ax (lM L') V k = vget RA (lb L') k) <->
+   (vget RA V j = s * vget RA V i /\
+    (forall k, (k < length (lM L))%nat -> k <> i -> k <> j -> Ax (lM L) V k = vget RA (lb L) k) /\
+    Ax (lM L) V i + s * Ax (lM L) V j = vget RA (lb L) i + s * vget RA (lb L) j)).
+Proof. exact tie_system_equiv. Qed.
+Print Assumptions C09_tie_constrained_system.
+
+Theorem C09_tie_argument_order_irrelevant : forall (anti : bool) (L : lin (F:=R)) (i j : nat),
+  tie anti L i j = tie anti L j i.
+Proof. exact tie_comm. Qed.
+Print Assumptions C09_tie_argument_order_irrelevant.
+
+(* -- non-vacuity: the hypotheses are met by every matrix the op scripts can build -------- *)
+Example C09_hypotheses_satisfiable : forall (n : nat) (h : list (R * nat * nat)),
+  in_range n h -> mat_wf (puts (mcreate RA n) h) /\ length (puts (mcreate RA n) h) = n.
+Proof.
+  intros n h Hr. destruct (mat_wf_puts h (mcreate RA n) (mat_wf_mcreate n)) as [H1 H2].
+  - rewrite mcreate_length. exact Hr.
+  - split; [exact H1|]. rewrite H2. apply mcreate_length.
+Qed.
